@@ -80,11 +80,10 @@ def maxRank (ws : List Rat) (thr : Rat) (finalRank : Option Nat) : Nat :=
   | none => 1 + argmaxTrue ((truncationErrors ws).map fun e => decide (e ≤ thr))
   | some r => r
 
-/-- `truncation_errors[max_rank - 1]` with Python's negative index for `max_rank = 0`;
-`none` = IndexError -/
+/-- `truncation_errors[max_rank - 1] if max_rank > 0 else cumulative_error_sum[-1]` (with `max_rank = 0` nothing
+is kept and the whole weight is reported); `none` = IndexError -/
 def truncationValue (ws : List Rat) (L : Nat) : Option Rat :=
-  let es := truncationErrors ws
-  if L = 0 then es.getLast? else es[L - 1]?
+  if L = 0 then (cumsum ws).getLast? else (truncationErrors ws)[L - 1]?
 
 /-! ## `spinorb_from_spatial` / `get_tensors_from_integrals` -/
 
@@ -153,8 +152,9 @@ def twoPdmToTwoHole (tpdm : C4) (opdm : C2) (a b c d : Nat) : GQ :=
 def twoHoleToTwoPdm (tqdm : C4) (opdm : C2) (p q r s : Nat) : GQ :=
   tqdm r s p q + term123 opdm p q r s
 
-/-- `map_one_pdm_to_one_hole_dm` / `map_one_hole_dm_to_one_pdm` : `eye - m` (no transposition) -/
-def oneMinus (m : C2) (p q : Nat) : GQ := delta p q - m p q
+/-- `map_one_pdm_to_one_hole_dm` / `map_one_hole_dm_to_one_pdm` : `eye - m.T`
+(`⟨a_p a†_q⟩ = δ_pq − ⟨a†_q a_p⟩`) -/
+def oneMinus (m : C2) (p q : Nat) : GQ := delta p q - m q p
 
 /-- `map_two_pdm_to_particle_hole_dm`: `phdm[p, r, q, s] = opdm[p, s] δ(q, r) - tpdm[p, q, r, s]`,
 read at `[a, b, c, d]` (so `(p, q, r, s) = (a, c, b, d)`) -/
